@@ -90,6 +90,10 @@ func FlushFromOverrideDefaultNI(c *fluent.GRIBIClient, wantACK fluent.Programmin
 // default NI using the Get RPC.
 func FlushFromNonMasterDefaultNI(c *fluent.GRIBIClient, wantACK fluent.ProgrammingResult, t testing.TB, _ ...TestOpt) {
 	defer flushServer(c, t)
+	// Ensure that the election ID two below the one that we end up with is not zero,
+	// which is an invalid ID rather than the ID of a non-master: this is the case when
+	// the test is the first to run with the default starting election ID.
+	electionID.Inc()
 	addFlushEntriesToNI(c, defaultNetworkInstanceName, wantACK, t)
 
 	// addFlushEntriesToNI increments the election ID so to check with the current value,
